@@ -313,6 +313,15 @@ fn builtin_char(args: Vec<Rc<Object>>) -> Result<Rc<Object>, String> {
     let obj = args[0].as_ref();
     match obj {
         Object::Char(_) => Ok(Rc::clone(&args[0])),
+        // a string of exactly one character converts to that character
+        Object::Str(s) => {
+            let mut chars = s.chars();
+            match (chars.next(), chars.next()) {
+                (Some(c), None) => Ok(Rc::new(Object::Char(c))),
+                _ => Ok(Rc::new(Object::Null)),
+            }
+        }
+        Object::Bool(b) => Ok(Rc::new(Object::Char(if *b { '\u{1}' } else { '\0' }))),
         Object::Byte(b) => {
             if let Some(c) = std::char::from_u32(*b as u32) {
                 Ok(Rc::new(Object::Char(c)))
@@ -348,6 +357,11 @@ fn builtin_byte(args: Vec<Rc<Object>>) -> Result<Rc<Object>, String> {
     let obj = args[0].as_ref();
     match obj {
         Object::Byte(_) => Ok(Rc::clone(&args[0])),
+        // a string of exactly one byte converts to that byte
+        Object::Str(s) => match s.as_bytes() {
+            [b] => Ok(Rc::new(Object::Byte(*b))),
+            _ => Ok(Rc::new(Object::Null)),
+        },
         Object::Char(c) => Ok(Rc::new(Object::Byte(*c as u8))),
         Object::Bool(b) => {
             if *b {
